@@ -303,13 +303,14 @@ def frames(units, cfg):
                 row["district"] = u["district"]
             brow.append(row)
         if u["in_feed"]:
+            nan = u.get("r_nan", False)  # the feed has a row for the unit but no results yet
             frow.append(
                 {
                     "postal_code": u["postal"],
                     "geographic_unit_fips": u["id"],
-                    "results_turnout": u["r_turnout"],
-                    "results_dem": u["r_dem"],
-                    "results_gop": u["r_gop"],
+                    "results_turnout": None if nan else u["r_turnout"],
+                    "results_dem": None if nan else u["r_dem"],
+                    "results_gop": None if nan else u["r_gop"],
                     "percent_expected_vote": u["pev"],
                 }
             )
